@@ -7,8 +7,9 @@
    subset of statements, always; clean shutdown = flush then crash) and crash-restarts (`EvCrash`:
    InitStorage = read the log, replay it on the data file with the page-LSN skip test, flush) on a
    freshly created database, any number of crash cycles with statements in between. (`hist_ok`
-   also admits `EvCrashInLog` - a crash inside a statement's log append, property C03 - so the
-   theorems below hold after those as well; `EvTornFlush` (C04) is not admitted.)
+   also admits `EvCrashInLog` - a crash inside a statement's log append, property C03 - and
+   `EvTornFlush` - a crash inside flushPages, property C04, in-place case - so the theorems below
+   hold after those as well.)
 
    `seq a b`: a and b have the same pages up to dirty flags (same cells, LSNs, sibling links,
    separators), the same catalog root and the same allocation frontier. The row-id and LSN counters
